@@ -54,6 +54,10 @@ EXPLANATION += (
     'complete, zipped lists are in lock-step (sa/rules/nodekeys.py).'
 )
 
+EXPLANATION += (
+    " Round 5: leaves_to_compare answers through get_all_leaf_pairs or a short-cut tested on the parent's own children (R-MUST/pairs-from-the-tree)."
+)
+
 RULE_TEXT = (
     "one obligation per constructor path, per attribute-assignment site, "
     "per mutation candidate, per helper parameter, per accessor x caller, "
@@ -85,6 +89,7 @@ def check(ctx):
     check_builder_records_all(ctx)
     check_release_reader_records_all(ctx)
     check_node_identity(ctx, ('taxonomy.',), floor=3)
+    check_pairs_from_tree(ctx)
     from .C05 import sweep_generic_rules
     sweep_generic_rules(ctx, ('taxonomy.',))
 
@@ -819,3 +824,68 @@ def check_release_reader_records_all(ctx):
         what='row',
         consequence='a term listed under a second parent is dropped '
         'before validation, and a table that is not a tree is accepted')
+
+
+def check_pairs_from_tree(ctx):
+    """which leaf pairs have to be told apart under a parent is decided by
+    one routine (get_all_leaf_pairs) from the children of that parent.
+    The tree's query method hands its result on; an answer it gives
+    without the routine -- an early `return []` -- is right only if the
+    test in front of it looks at that parent's own children.  A shortcut
+    taken on anything coarser (the size of the level, the number of
+    levels) leaves parents without their pairs, and no markers are
+    selected for them."""
+    from ..core.slicing import backward_slice
+    from ..core.defuse import term_contains
+    db = ctx.db
+    fi = db.fn(TREE + '.leaves_to_compare')
+    ctx.touch(fi)
+    cfg = cfg_of(fi)
+    rd = rd_of(fi)
+    ex = Expander(fi)
+    rule = 'R-MUST/pairs-from-the-tree'
+    k = 0
+    seen_routine = False
+    for r in cfg.nodes:
+        if r.kind != 'return' or r.id not in rd.live:
+            continue
+        v = r.ast.value
+        sl = backward_slice(fi, v, r.id) if v is not None else None
+        ok = sl is not None and 'get_all_leaf_pairs' in sl.call_names()
+        why = 'the pairs come from get_all_leaf_pairs'
+        if ok:
+            seen_routine = True
+        else:
+            # guards in front of the shortcut
+            tests = []
+            p_ = getattr(r.ast, '_parent', None)
+            while p_ is not None and p_ is not fi.node:
+                if isinstance(p_, ast.If):
+                    tests.append(p_)
+                p_ = getattr(p_, '_parent', None)
+            for iff in tests:
+                ns = [x for x in cfg.nodes_of(iff) if x.kind == 'if'
+                      and x.id in rd.live]
+                if not ns:
+                    continue
+                t = ex.expand(iff.test, ns[0].id)
+                own = term_contains(
+                    t, lambda x: (len(x) == 3 and x[0] == 'sub'
+                                  and x[1] == ('param', 'parent_node')
+                                  and x[2] == ('const', '1')))
+                kids = 'children' in backward_slice(
+                    fi, iff.test, ns[0].id).call_names()
+                if own or kids:
+                    ok = True
+                    why = ('the shortcut is taken on the children of the '
+                           'parent itself')
+        ctx.ob(rule, f'leaves_to_compare:return#{k}', fi.loc(r.ast), ok,
+               why if ok else
+               f'`{unparse(r.ast)[:50]}` answers without '
+               'get_all_leaf_pairs, on a test that does not look at the '
+               'children of the parent asked about: parents whose '
+               'children do need telling apart get no pairs')
+        k += 1
+    if not seen_routine:
+        raise AnalysisError('leaves_to_compare no longer returns the '
+                            'result of get_all_leaf_pairs')
